@@ -2,7 +2,7 @@
    (their specifications are in MsaExecProofs.v), table-driven instances of the
    oracles, and the correspondence cases evaluated by the harness. *)
 From Coq Require Import List Arith Bool ZArith QArith.
-From LV Require Import Common.Cases Align.DP Msa.Profile Msa.Merge Msa.Refine.
+From LV Require Import Common.Cases Align.DP Msa.Profile Msa.Merge Msa.Refine Msa.Score Msa.ScoreExec.
 Import ListNotations.
 Local Open Scope nat_scope.
 
@@ -107,6 +107,15 @@ Fixpoint merge_orderb (avail : list nat) (next : nat) (tree : list (nat * nat)) 
 Definition valid_merge_orderb (h : nat) (tree : list (nat * nat)) : bool :=
   merge_orderb (seq 0 h) h tree.
 
+(* checker for the recorded index lists of iterate_clusters / iterate_orphans *)
+Definition idx_okb (h : nat) (idx : list nat) : bool :=
+  negb (Nat.eqb (length idx) 0) && forallb (fun i => i <? h) idx
+  && existsb (fun k => negb (mem k idx)) (seq 0 h).
+
+Definition idxs_okb (h : nat) (idxs : list (list nat)) : bool :=
+  Nat.eqb (length idxs) 1 || forallb (idx_okb h) idxs.
+
+
 (* ------------------------------------------------------------------ *)
 (* table-driven oracles *)
 Record pa_entry := { pe_A : mat num; pe_B : mat num; pe_a : list (option nat); pe_b : list (option nat) }.
@@ -150,8 +159,36 @@ Record step := {
   sp_ext : emat;                      (* implementation: alm_matrix after the call *)
   sp_before : Q;                      (* sum_of_pairs(gap_weight) measured by the harness before ... *)
   sp_after : Q;                       (* ... and after the call *)
-  sp_cand : option imat               (* the matrix of the end-of-pass measurement, if one happened *)
+  sp_cand : option imat;              (* the matrix of the end-of-pass measurement, if one happened *)
+  sp_gw : Q;                          (* the gap weight of the call *)
+  sp_scorer : option (list ((num * num) * Q))
+                                      (* the scoring dictionary current during the call (None: too large) *)
 }.
+
+(* scorer[numA, numB] read off the recorded dictionary *)
+Definition pair_scorer (tab : list ((num * num) * Q)) : num -> num -> Q :=
+  fun a b => match find (fun e => num_eqb (fst (fst e)) a && num_eqb (snd (fst e)) b) tab with
+             | Some e => snd e
+             | None => 0%Q
+             end.
+
+(* C11 with the DOCUMENTED score (Msa/Score.v) instead of the implementation's own measurement: the
+   values the harness read with the implementation's sum_of_pairs agree with the model's sum_of_pairs
+   on the matrices before and after the call (within 2^-30: the implementation divides in floating
+   point), and the model's score after an end-of-pass refinement call is not lower than before *)
+Definition definitional_okb (sonars : bool) (s : step) (before_int : imat) : bool :=
+  match sp_scorer s with
+  | None => true
+  | Some tab =>
+      let sc := pair_scorer tab in
+      let mb := sum_of_pairs sc sonars (-1 # 1)%Q (sp_gw s) before_int in
+      let ma := sum_of_pairs sc sonars (-1 # 1)%Q (sp_gw s) (sp_int s) in
+      oclose mb (Some (sp_before s)) && oclose ma (Some (sp_after s)) &&
+      match mb, ma with
+      | Some x, Some y => Qle_bool (x - (1 # 1073741824))%Q y
+      | _, _ => false
+      end
+  end.
 
 Record msa_case := {
   mc_tokens : list (list Z);
@@ -216,8 +253,15 @@ Definition step_code (cf : config) (sonars : bool) (s : step) (model : state) (b
                 end
     end in
   let early := negb (early_exitb cf s before) || sp_raised s || state_eqb before after in
-  (bit 0 corr + bit 1 (pa_table_okb (sp_pa s)) + bit 2 (msa_okb cf after)
-   + bit 3 monotone + bit 4 rollback + bit 5 early, model').
+  let definitional :=
+    negb (is_iter (sp_kind s) && is_final (sp_check s)) || sp_raised s || definitional_okb sonars s (st_int before) in
+  let idx_contract :=
+    match sp_kind s with
+    | KClusters | KOrphans => sp_raised s || idxs_okb (height_of cf) (sp_idxs s) || (length (cf_tokens cf) <? 3)
+    | _ => true
+    end in
+  (bit 0 corr + bit 1 (pa_table_okb (sp_pa s) && idx_contract) + bit 2 (msa_okb cf after)
+   + bit 3 monotone + bit 4 rollback + bit 5 early + bit 6 definitional, model').
 
 Fixpoint steps_code (cf : config) (sonars : bool) (ss : list step) (model before : state) : nat :=
   match ss with
